@@ -262,3 +262,50 @@ def identifier_operands(g, rep, prefix, shapes=None, floor=80):
                    "`%s`: the operand is %s although %s is a legal symbol name" % (
                        text, "not recognised" if got is None else "read as %s" % (", ".join(regs) or "the identifier(s) %s" % names), ident))
     rep.floor("operands that are symbols named like registers", n, floor)
+
+
+# ------------------------------------------------------------------------------------------------ what counts as code on a line
+CODE_SAMPLES = [
+    [("code", "ldi r16, 1+(2)")],
+    [("code", "ldi r16, "), ("char", "'('"), ("code", " "), ("comment", "; (((( )")],
+    [("code", ".db "), ("string", '"(((("'), ("code", ", 1 "), ("comment", "; ((((")],
+    [("code", ".db "), ("string", '"a;(b"'), ("code", ", 2 "), ("comment", "// ((((")],
+    [("code", "nop "), ("comment", "/* (((( */")],
+    [("code", "nop "), ("comment", "/* (((( */ ; ((((")],
+    [("code", "nop "), ("comment", "/* (((( */ /* (((( */ // ((((")],
+    [("code", "nop "), ("comment", "/* (((( */ ")],
+    [("code", ".db "), ("string", '"/* (((("'), ("code", ", 3")],
+    [("code", ".db "), ("string", '";("'), ("code", ", "), ("string", '"//("'), ("code", ", "), ("string", '"/*("')],
+    [("code", ".db "), ("char", "'\"'"), ("code", ", (4) "), ("comment", "; \"((((")],
+    [("code", ".db "), ("char", "';'"), ("code", ", (5)")],
+    [("code", "lab: .dw -(1) "), ("comment", ";")],
+    [("comment", "; (((( only a comment")],
+    [("comment", "// ((((")],
+    # a block comment that is never closed is no comment for the line parser: it must count as code
+    [("code", "nop /* ((((")],
+]
+
+
+def code_text(g, line, rule="code_part"):
+    """the characters the rule hands on as code: its `$()` captures, in order"""
+    tr = peg.full_match(g, rule, line, lambda r, a, c: True)
+    if tr is None:
+        return None
+    return "".join(v for r, a, caps in tr.actions if r == rule for k, v in caps.items() if k in caps.slices)
+
+
+def check_code_part(g, rep, key, rule="code_part"):
+    """What a filter in front of the line parser may judge: exactly the characters of a line that are code - nothing out of a quoted text or
+    a comment (they carry no meaning), and all the rest (a guard must see every parenthesis the parser will see)."""
+    bad = []
+    for pieces in CODE_SAMPLES:
+        line = "".join(t for k, t in pieces)
+        want = "".join(t for k, t in pieces if k == "code")
+        got = code_text(g, line, rule)
+        # blanks between comments are nobody's
+        if got is None or got.replace(" ", "").replace("\t", "") != want.replace(" ", "").replace("\t", ""):
+            bad.append((line, want, got))
+    rep.ob(key, not bad,
+           "%s() hands on exactly the code of a line: quoted texts and comments (trailing ;, //, /* */ and their combinations) are left out, an unclosed /* is code (%d sample lines)" % (rule, len(CODE_SAMPLES)) if not bad else
+           "%s() on `%s` hands on `%s`, the code of the line is `%s`; %d of %d sample lines differ" % (rule, _show(bad[0][0]), bad[0][2], bad[0][1], len(bad), len(CODE_SAMPLES)),
+           detail={"lines": bad[:5]})
